@@ -189,9 +189,10 @@ func (bsp *batchSpanProcessor) ForceFlush(ctx context.Context) error {
 		return err
 	}
 
-	// Do nothing after Shutdown.
+	// After Shutdown has been called its worker exports everything that is
+	// queued before it exits: wait for that instead of flushing.
 	if bsp.stopped.Load() {
-		return nil
+		return bsp.waitStopped(ctx)
 	}
 
 	var err error
@@ -201,7 +202,7 @@ func (bsp *batchSpanProcessor) ForceFlush(ctx context.Context) error {
 			select {
 			case <-bsp.stopCh:
 				// The batchSpanProcessor is Shutdown.
-				return nil
+				return bsp.waitStopped(ctx)
 			case <-flushCh:
 				// Processed any items in queue prior to ForceFlush being called
 			case <-ctx.Done():
@@ -225,6 +226,22 @@ func (bsp *batchSpanProcessor) ForceFlush(ctx context.Context) error {
 		}
 	}
 	return err
+}
+
+// waitStopped waits until the worker of a shut down batchSpanProcessor has
+// exported the remaining queue and exited, or ctx is done.
+func (bsp *batchSpanProcessor) waitStopped(ctx context.Context) error {
+	done := make(chan struct{})
+	go func() {
+		bsp.stopWait.Wait()
+		close(done)
+	}()
+	select {
+	case <-done:
+		return nil
+	case <-ctx.Done():
+		return ctx.Err()
+	}
 }
 
 // WithMaxQueueSize returns a BatchSpanProcessorOption that configures the
